@@ -113,6 +113,9 @@ func runReinvest(ctx *action.Context, tx action.RawTx) (bool, action.Response) {
 
 	// cut rewards
 	coinAmt := invest.Amount.ToCoin(ctx.Currencies)
+	if !coinAmt.IsValid() || coinAmt.Currency.Name != "OLT" {
+		return helpers.LogAndReturnFalse(ctx.Logger, action.ErrInvalidAmount, invest.Tags(), errors.New("Coin is not valid"))
+	}
 	err = ctx.NetwkDelegators.Rewards.MinusRewardsBalance(invest.Delegator, coinAmt.Amount)
 	if err != nil {
 		return helpers.LogAndReturnFalse(ctx.Logger, netwkDeleg.ErrReinvestRewards, invest.Tags(), err)
